@@ -1,6 +1,7 @@
 import FlatModel.Driver.Wire
 import FlatModel.Model.Coded
 import FlatModel.Model.Items
+import FlatModel.Model.Serde
 /-! The line-protocol engine. Handles of one catalogue entry live in one *bank* (all of the same
 model type), so operations that relate two regions (`merge`, `clone_from`, `reserve_regions`,
 `pushitem`, `cmp`) are typed. -/
@@ -88,11 +89,14 @@ structure AnyIdx where
   C : Type
   inst : IdxCont C Nat
   aux : IdxAux C
+  /-- serialise, then deserialise -/
+  serde : C → Option C
   state : C
 
 namespace AnyIdx
 def fmtList' (xs : List String) : String := "[" ++ ", ".intercalate xs ++ "]"
-def mk' (C : Type) [inst : IdxCont C Nat] [aux : IdxAux C] : AnyIdx := { C := C, inst := inst, aux := aux, state := inst.default }
+def mk' (C : Type) [inst : IdxCont C Nat] [aux : IdxAux C] [Ser C] : AnyIdx :=
+  { C := C, inst := inst, aux := aux, serde := fun c => Ser.de (Ser.ser c), state := inst.default }
 def caps (a : AnyIdx) : String := "cap " ++ fmtList' ((a.aux.heap a.state).map fun p => toString p.2)
 def fmtList (xs : List String) : String := "[" ++ ", ".intercalate xs ++ "]"
 def obs (a : AnyIdx) : String :=
@@ -236,7 +240,7 @@ def stepInner (newBank : String → Option Bank) (env : Env) (line : String) : E
       | none => (env, "bad-op")
     | none =>
       match env.idxs.lookup h with
-      | some c => ({ env with idxs := (hnew, c) :: env.idxs.filter (·.1 != hnew) }, "ok")
+      | some c => ({ env with idxs := (hnew, { c with state := c.aux.clone c.state }) :: env.idxs.filter (·.1 != hnew) }, "ok")
       | none => (env, "bad-op")
   | ["clone_from", hdst, hsrc] =>
     match env.bankOf hdst with
@@ -265,7 +269,10 @@ def stepInner (newBank : String → Option Bank) (env : Env) (line : String) : E
       | none => (env, "bad-op")
     | none =>
       match env.idxs.lookup h with
-      | some c => ({ env with idxs := (hnew, c) :: env.idxs.filter (·.1 != hnew) }, "ok")
+      | some c =>
+        match c.serde c.state with
+        | some st => ({ env with idxs := (hnew, { c with state := st }) :: env.idxs.filter (·.1 != hnew) }, "ok")
+        | none => (env, "na")
       | none => (env, "bad-op")
   | ["heap", h] =>
     match env.bankOf h with
